@@ -108,7 +108,11 @@ func (e *env) msg(m M) sdk.Msg {
 	case "send":
 		return &banktypes.MsgSend{FromAddress: c.Addr("u1"), ToAddress: c.Addr("u2"), Amount: sdk.NewCoins(sdk.NewCoin(c.Denom("n1"), math.NewInt(1)))}
 	case "deposit":
-		return &opchildtypes.MsgFinalizeTokenDeposit{Sender: c.Addr("e1"), From: c.Addr("u2"), To: c.Addr("u1"), Amount: sdk.NewCoin(c.Denom("l2/1/d1"), math.NewInt(1)),
+		to := c.Addr("u1")
+		if b, ok := m["bounce"]; ok && absx.Bool(b) {
+			to = c.Addr("opchild") // the module account: the bank refuses to credit it, the deposit is refunded
+		}
+		return &opchildtypes.MsgFinalizeTokenDeposit{Sender: c.Addr("e1"), From: c.Addr("u2"), To: to, Amount: sdk.NewCoin(c.Denom("l2/1/d1"), math.NewInt(1)),
 			Sequence: uint64(absx.Int(m["seq"])), Height: 5, BaseDenom: c.Denom("d1")}
 	case "exec":
 		var inner []sdk.Msg
